@@ -86,6 +86,20 @@ CHECKS["C10"] = ("ledgersim", "fault_enumeration",
   "this check currently enumerates the transaction store's operations; faults below bbolt are not injected. " + TB,
   "DESIGN.md §6 C10")
 
+ADDR_TECH = "deterministic simulation: a real waddrmgr.Manager on bbolt driven by seeded operation histories (next/extend/derive/lookup/mark-used, lock/unlock with right and near-miss passphrases, passphrase changes, accounts incl. imported xpub accounts and custom scopes, key/script imports, sync state, restarts and crash-restarts from commit images, deliberately rolled-back transactions, injected commit/write failures)"
+CHECKS["C03"] = ("addrsim", "exploration", ADDR_TECH + "; oracle = an independent BIP32 implementation (keyoracle) written in the harness",
+  "Every address object returned or looked up is compared with keyoracle (address, type, public key, derivation path and fingerprint, internal flag, account, imported/compressed flags); whenever the model says unlocked and not watch-only its private key must be the oracle's and a signature made with it must verify — for objects returned at issue time, looked up later, created while locked, created by Extend, and loaded after restart; indices per branch consecutive without repetition; imported keys and scripts byte-identical; a second wallet created from the same seed issues the same addresses. keyoracle is cross-checked against hdkeychain and BIP32 test vector 1 in its own unit test.",
+  "invalid BIP32 children cannot be produced; accounts created after wallet creation derive from the stored (padded) coin-type key, which the oracle models. " + TB, "DESIGN.md §3.5, §6 C03")
+CHECKS["C04"] = ("addrsim", "exploration", ADDR_TECH + "; multi-pattern scan of the database file image at commit boundaries for every secret the run produced",
+  "The harness keeps the run's secret set (passphrases, seed, master/coin-type/account extended private keys raw and serialised, every derived and imported private key raw and WIF, imported secret scripts) and quasi-secret set (extended public keys, public keys, hash160s, address strings) from keyoracle; commit-boundary images (every commit in thorough, 1 in 8 plus all create/import/passphrase/account/convert commits in quick) are scanned, free pages included, and every stored field is additionally decrypted under the PUBLIC crypto key and searched for secrets. After ConvertToWatchingOnly on a copy the reopened copy must resolve every address, refuse Unlock and every private accessor, and hold no secret.",
+  "patterns shorter than 16 bytes are not used (chance matches); no transaction is ever recorded in addrsim, so quasi-secrets must never appear. " + TB, "DESIGN.md §6 C04")
+CHECKS["C05"] = ("addrsim", "exploration", ADDR_TECH + "; access-control model over {locked, unlocked, watch-only} plus an overlay probe that hands out aliases of the live clear-text key buffers",
+  "After every operation every private-material accessor is probed on managed objects; in locked / watch-only state each must fail with the locked / watching-only error class; the current private passphrase always unlocks, eight near-miss variants never do and leave the manager locked; passphrase changes take effect immediately and after restart. Memory: aliases of master, crypto, account, address and script clear-text buffers and of the derived-key cache captured while unlocked must read all-zero after Lock and after a failed Unlock, and a fresh enumeration must report no live secret.",
+  "the memory probe is an add-only overlay file (harness/probes/waddrmgr); the Go garbage collector may keep copies the probe cannot see. " + TB, "DESIGN.md §6 C05")
+CHECKS["C08"] = ("addrsim", "exploration", ADDR_TECH + "; restart observer: a fresh manager opened on the latest commit image must answer ~200 queries exactly as the running one",
+  "After committed operations (every 4th in quick, all in thorough) and after every rolled-back one, the latest commit image is opened by a fresh waddrmgr.Open and both managers answer the same queries (addresses with all metadata, account properties, last addresses, names, used flags, sync state, block hashes); after a rolled-back transaction (dry-run pattern, closure error, injected commit or write failure) the next committed issuing call must return exactly the address a manager restarted on the image would issue.",
+  "addresses only ever derived inside a rolled-back transaction are not queried (they were never issued). " + TB, "DESIGN.md §6 C08")
+
 NOT_APPLICABLE = [
  {"property_id": "C07", "reason": "pure function of its input (outputs, fee rate, coin list, change script): no schedule, clock, I/O, fault or history for a simulator to own; the deciding technique would be input enumeration/property-based testing, which is a different family (DESIGN.md §7)"},
 ]
